@@ -1,9 +1,109 @@
 import RefurbVerif.Wire.Basic
+import RefurbVerif.Model.Lifecycle
 open Lean
 
 namespace RefurbVerif.Wire
+open RefurbVerif.Lifecycle
 
-/-- driver verbs of this group (filled in by the property that owns it) -/
-def handleLifecycle (_verb : String) (_j : Json) : Option Json := none
+def lcPOpts (s : String) : POpts := if s == "SystemExit" then .systemExit else .ok
+def lcBuild (s : String) : Build :=
+  match s with
+  | "CompileError" => .compileError
+  | "other" => .otherExc
+  | _ => .ok
+def lcLoad (s : String) : Load := if s == "TypeError" then .typeError else .ok
+def lcVisit (s : String) : Visit := if s == "raises" then .raises else .ok
+def lcOts (s : String) : Ots :=
+  match s with
+  | "readError" => .readError
+  | "ValueError" => .valueError
+  | "writeError" => .writeError
+  | _ => .ok
+
+def lcScenario (j : Json) : Scenario :=
+  { timingStats := bool j "timing", popts := lcPOpts (str j "popts"), build := lcBuild (str j "build"),
+    load := lcLoad (str j "load"), visits := (strs j "visits").map lcVisit, ots := lcOts (str j "ots") }
+
+def lcOutcome : Outcome → String
+  | .returned => "returned"
+  | .typeError => "TypeError"
+  | .crashed => "crashed"
+
+def lcOk (b : Bool) : String := if b then "ok" else "raises"
+
+def lcEvent : Event → String
+  | .processOptions .ok => "processOptions ok"
+  | .processOptions .systemExit => "processOptions SystemExit"
+  | .mkstemp => "mkstemp"
+  | .build .ok => "build ok"
+  | .build .compileError => "build CompileError"
+  | .build .otherExc => "build other"
+  | .loadChecks .ok => "loadChecks ok"
+  | .loadChecks .typeError => "loadChecks TypeError"
+  | .visit i .ok => s!"visit {i} ok"
+  | .visit i .raises => s!"visit {i} raises"
+  | .readTemp b => "readTemp " ++ lcOk b
+  | .parseTemp b => "parseTemp " ++ lcOk b
+  | .writeStats b => "writeStats " ++ lcOk b
+  | .outputTimingStats .skipped => "outputTimingStats skipped"
+  | .outputTimingStats .ok => "outputTimingStats ok"
+  | .outputTimingStats .raised => "outputTimingStats raises"
+  | .unlink => "unlink"
+  | .done o => "done " ++ lcOutcome o
+
+def lcTemp : Option Temp → String
+  | some .none => "none"
+  | some .created => "created"
+  | some .unlinked => "unlinked"
+  | Option.none => "illegal"
+
+def lcOtsName : Ots → String
+  | .ok => "ok"
+  | .readError => "readError"
+  | .valueError => "ValueError"
+  | .writeError => "writeError"
+
+def lcPairs (j : Json) (k : String) : List (Str × Int) :=
+  (arr j k).filterMap (fun kv =>
+    match kv with
+    | .arr #[.str m, v] => some (m.toList, (v.getInt?).toOption.getD 0)
+    | _ => Option.none)
+
+def lcPairsJ (d : List (Str × Int)) : Json :=
+  Json.arr (d.map (fun kv => Json.arr #[Json.str (String.ofList kv.1), Json.str (String.ofList (intChars kv.2))])).toArray
+
+/-- driver verbs of this group -/
+def handleLifecycle (verb : String) (j : Json) : Option Json :=
+  match verb with
+  | "lifecycle" =>
+    let s := lcScenario j
+    -- "fin" overrides the shape read from the working tree (used to exercise both shapes)
+    let fin := match j.getObjValAs? Bool "fin" with
+      | .ok b => b
+      | .error _ => Generated.unlinkInFinally
+    some (Json.mkObj [("trace", toJson ((run fin s).map lcEvent)), ("final", lcTemp (finalTemp fin s)),
+      ("outcome", (outcome fin s).map lcOutcome |>.getD "?"), ("fin", fin)])
+  | "timingjson" =>
+    let content := (str j "content").toList
+    let total := int j "total"
+    let refurb := lcPairs j "refurb"
+    some (match timingData content total refurb with
+      | .error _ => Json.mkObj [("err", "ValueError")]
+      | .ok st => Json.mkObj [("text", String.ofList (renderObj st.data)), ("mypy", lcPairsJ st.mypy), ("refurb", lcPairsJ st.refurb)])
+  | "otsof" =>
+    some (Json.str (lcOtsName (otsOf (bool j "readable") (str j "content").toList (bool j "writable"))))
+  | "pyint" =>
+    some (match parsePyInt (str j "s").toList with
+      | some i => Json.str (String.ofList (intChars i))
+      | Option.none => Json.null)
+  | "pysplit" =>
+    some (Json.mkObj [("lines", toJson ((pySplitlines (str j "s").toList).map String.ofList)),
+      ("fields", toJson ((pySplit (str j "s").toList).map String.ofList))])
+  | "pychartables" =>
+    -- every code point below 0x110000 the model treats as whitespace / as a line boundary
+    let cps := (List.range 0x110000).filter (fun n => n < 0xd800 || 0xdfff < n)
+    some (Json.mkObj [("space", toJson (cps.filter (fun n => isPySpace (Char.ofNat n)))),
+      ("linebreak", toJson (cps.filter (fun n => isLineBreak (Char.ofNat n))))])
+  | _ => Option.none
 
 end RefurbVerif.Wire
